@@ -24,6 +24,7 @@ import (
 	"flag"
 	"fmt"
 	"math"
+	"os"
 	"sort"
 	"strings"
 	"time"
@@ -674,6 +675,17 @@ func o1Job(j Job) (res Result) {
 			continue
 		}
 		o := observe(p)
+		if os.Getenv("C07_DUMP") != "" {
+			var evs []string
+			for _, e := range p.Res.Events {
+				evs = append(evs, e.EventType)
+			}
+			var errs []string
+			for _, f := range p.Res.Failed {
+				errs = append(errs, strings.ReplaceAll(f.Error.Error(), "\n", " "))
+			}
+			fmt.Fprintf(os.Stderr, "C07_DUMP block=%v height=%d nonSigners=%d kept=%d failed=%v events=%v\n", seqNames(seq), w.h, w.nonSigners, len(p.Kept), errs, evs)
+		}
 		posts[o.hdrHash] = true
 		// reference: the same block with the dropped transactions deleted
 		key := hashAll(wantKept)
